@@ -21,7 +21,7 @@ package tree
 //@   && x.height >= 0 && ((x.children[0] == nil) <==> x.height == 0)
 //@   && (x != t.root ==> x.parent != nil && t.nodes[x.parent] && 0 <= x.pidx && x.pidx <= x.parent.n && x.parent.children[x.pidx] == x && x.parent.height == x.height + 1)
 //@   && (x == t.root ==> x.parent == nil)
-//@ pred structOK(t, exc) = t != nil && t.root != nil && t.nodes[t.root] && t.compare != nil && !t.nodes[nil]
+//@ pred structOK(t, exc) = t != nil && t.root != nil && t.nodes[t.root] && t.compare != nil && !t.nodes[nil] && (t.root.n == 0 && exc != t.root ==> t.root.height == 0)
 //@   && (forall x *node[K, V] {t.nodes[x]} :: t.nodes[x] ==> nodeOK(t, x, exc))
 //@   && (forall x *node[K, V], j int {x.children[j]} :: t.nodes[x] && 0 <= j && j <= 15 ==>
 //@        (x.height == 0 ==> x.children[j] == nil)
@@ -82,3 +82,65 @@ package tree
 //@   ghost result.nodes := single(result.root)
 //@   ghost result.root.height := 0
 //@   ensures fresh(result) && result.size == 0 && result.gen == 0 && result.compare == compare && structOK(result, nil) && result.root.n == 0
+
+// ---- read paths: structure only (no panic, one searchNode per level) ----
+
+//@ func btree.Len
+//@   props C01 C03
+//@   ensures result == t.size
+
+//@ func btree.Get
+//@   props C03
+//@   requires structOK(t, nil)
+//@   ghostinit lv := 0
+//@   after call searchNode[0]: ghost lv := lv + 1
+//@   loop 0: invariant (curr == nil || t.nodes[curr]) && 0 <= lv && (curr != nil ==> lv + curr.height == t.root.height) && (curr == nil ==> lv <= t.root.height + 1)
+//@   ensures lv <= t.root.height + 1
+
+//@ func btree.Contains
+//@   props C03
+//@   requires structOK(t, nil)
+//@   ghostinit lv := 0
+//@   after call searchNode[0]: ghost lv := lv + 1
+//@   loop 0: invariant (curr == nil || t.nodes[curr]) && 0 <= lv && (curr != nil ==> lv + curr.height == t.root.height) && (curr == nil ==> lv <= t.root.height + 1)
+//@   ensures lv <= t.root.height + 1
+
+//@ func btree.First
+//@   props C03
+//@   requires structOK(t, nil)
+
+//@ func btree.Last
+//@   props C03
+//@   requires structOK(t, nil)
+
+// ---- mutations: the structural invariant is re-established (C03) ----
+
+//@ func btree.insertIntoLeaf
+//@   props C03
+//@   requires structOK(t, nil) && t.nodes[x] && x.height == 0 && x.n < 15
+//@   modifies x.n, x.keys, x.values
+//@   loop 0: invariant 0 <= idx && idx <= x.n
+//@   ensures structOK(t, nil) && x.n == old(x.n) + 1
+
+//@ func btree.siblings
+//@   props C03
+//@   requires structOK(t, x) && t.nodes[x]
+//@   ensures x == t.root ==> result0 == nil && result1 == nil
+//@   ensures x != t.root ==> (x.pidx > 0 ==> result0 == x.parent.children[x.pidx-1] && t.nodes[result0]) && (x.pidx == 0 ==> result0 == nil)
+//@   ensures x != t.root ==> (x.pidx < x.parent.n ==> result1 == x.parent.children[x.pidx+1] && t.nodes[result1]) && (x.pidx >= x.parent.n ==> result1 == nil)
+
+//@ func btree.rotateRight
+//@   props C03
+//@   requires structOK(t, right) && t.nodes[left] && t.nodes[right] && left != t.root && right != t.root && left.parent == right.parent && right.pidx == left.pidx + 1
+//@   requires left.n > 7 && right.n < 15
+//@   modifies left.n, right.n, left.keys, left.values, left.children, right.keys, right.values, right.children, left.parent.keys, left.parent.values, left.children[left.n].parent, all(left.pidx)
+//@   after call insertOne[2]: ghostmap c *node[K, V] . pidx := (c != nil && c == old(left.children[left.n])) ? 0 : ((c != nil && old(c.parent) == right && t.nodes[c]) ? old(c.pidx) + 1 : old(c.pidx))
+//@   ensures structOK(t, nil) && left.n == old(left.n) - 1 && right.n == old(right.n) + 1 && t.nodes == old(t.nodes) && t.root == old(t.root)
+
+//@ func btree.rotateLeft
+//@   props C03
+//@   requires structOK(t, left) && t.nodes[left] && t.nodes[right] && left != t.root && right != t.root && left.parent == right.parent && right.pidx == left.pidx + 1
+//@   requires right.n > 7 && left.n < 15
+//@   modifies left.n, right.n, left.keys, left.values, left.children, right.keys, right.values, right.children, right.parent.keys, right.parent.values, right.children[0].parent, all(left.pidx)
+//@   after call removeOne[2]: ghostmap c *node[K, V] . pidx := (c != nil && c == old(right.children[0])) ? old(left.n) + 1 : ((c != nil && old(c.parent) == right && t.nodes[c]) ? old(c.pidx) - 1 : old(c.pidx))
+//@   ensures structOK(t, nil) && left.n == old(left.n) + 1 && right.n == old(right.n) - 1 && t.nodes == old(t.nodes) && t.root == old(t.root)
